@@ -8,7 +8,12 @@
 (*   reflect.DeepEqual(snapst) guard), and of how the request entry points *)
 (*   of snapstate / ifacestate / devicestate use them.                     *)
 (*                                                                         *)
-(* changes : sequence of [kind, ready, snaps, down]                        *)
+(* changes : sequence of [kind, ready, snaps, down, done]                  *)
+(*    done  = snaps of the change all of whose tasks are already ready     *)
+(*            (lane finished / failed and undone) while the change itself  *)
+(*            is still in progress: they stay locked (the conflict check   *)
+(*            looks at every task of an unready change, whatever the       *)
+(*            task's own status)                                           *)
 (*    snaps = union of SnapsAffectedByTask over the change's tasks as      *)
 (*            created at request time; down = "is a snapd downgrade"       *)
 (*            (changeIsSnapdDowngrade).  A ready change is inert and is    *)
@@ -65,7 +70,7 @@ NeedsOK(op, S, st) ==
       [] op \in Excl3 \cup Transitions       -> TRUE
       [] OTHER                                -> \A s \in S : st[s] = "active"
 
-Done == [kind |-> "done", ready |-> TRUE, snaps |-> {}, down |-> FALSE]
+Done == [kind |-> "done", ready |-> TRUE, snaps |-> {}, down |-> FALSE, done |-> {}]
 NoFrom == 0
 
 VARIABLES changes, status, mon
@@ -113,12 +118,12 @@ Rejected(ch, op, S, from, mutated) ==
       [] OTHER                     -> FALSE                  \* injected kinds: no check
 
 NewChange(op, S) == [kind |-> KindOf(op), ready |-> FALSE, snaps |-> S,
-                     down |-> op \in {"snapd-revert-down", "snapd-refresh-down"}]
+                     down |-> op \in {"snapd-revert-down", "snapd-refresh-down"}, done |-> {}]
 
 \* the change list after the request
 After(ch, op, S, from, mutated) ==
     IF Rejected(ch, op, S, from, mutated) THEN ch
-    ELSE IF op = "refresh-from" THEN [ch EXCEPT ![from].snaps = @ \cup S]
+    ELSE IF op = "refresh-from" THEN [ch EXCEPT ![from].snaps = @ \cup S, ![from].done = @ \ S]
     ELSE IF op = "refresh-all"
          THEN LET E == Effective(ch, S, mutated) IN IF E = {} THEN ch ELSE Append(ch, NewChange(op, E))
     ELSE Append(ch, NewChange(op, S))
@@ -180,7 +185,7 @@ ReqTrans  == Room /\ \E op \in Transitions : Request(op, {}, NoFrom, {})
 
 \* changes that are created without a conflict check by design (download-only, become-operational)
 Inject == Room /\ \E k \in Irrelevant, T \in SUBSET Snaps : Cardinality(T) = 1
-              /\ changes' = Append(changes, [kind |-> k, ready |-> FALSE, snaps |-> T, down |-> FALSE])
+              /\ changes' = Append(changes, [kind |-> k, ready |-> FALSE, snaps |-> T, down |-> FALSE, done |-> {}])
               /\ UNCHANGED status
               /\ mon' = [NoMon EXCEPT !.kind = "inject"]
 
@@ -190,7 +195,14 @@ Progress == \E c \in Live(changes) :
               /\ UNCHANGED status
               /\ mon' = [NoMon EXCEPT !.kind = "progress"]
 
-Next == ReqSingle \/ ReqMany \/ ReqPair \/ ReqAll \/ ReqFrom \/ ReqSnapd \/ ReqExcl \/ ReqTrans \/ Inject \/ Progress
+\* partial progress: every task of change c that names snap s becomes ready (its lane is done, or failed and
+\* undone) while the change itself stays in progress (other lanes, or trailing tasks naming no snap)
+PartialProgress == \E c \in Live(changes) : \E s \in changes[c].snaps \ changes[c].done :
+              /\ changes' = [changes EXCEPT ![c].done = @ \cup {s}]
+              /\ UNCHANGED status
+              /\ mon' = [NoMon EXCEPT !.kind = "partial"]
+
+Next == PartialProgress \/ ReqSingle \/ ReqMany \/ ReqPair \/ ReqAll \/ ReqFrom \/ ReqSnapd \/ ReqExcl \/ ReqTrans \/ Inject \/ Progress
 
 Spec == Init /\ [][Next]_vars
 
@@ -199,7 +211,8 @@ Spec == Init /\ [][Next]_vars
 (***************************************************************************)
 IsReq == mon.kind = "request"
 
-\* a request on a snap another unfinished change operates on is rejected with a conflict error
+\* a request on a snap another unfinished change operates on is rejected with a conflict error -- also when all
+\* the tasks of that change naming the snap are already finished (StmtBusy looks at `snaps`, not at `done`)
 RejectIfBusy == (IsReq /\ mon.busy) => mon.result = "conflict"
 
 \* while an exclusive change is in progress no other change can be started
